@@ -43,7 +43,10 @@ def main():
     proto.write(json.dumps(hello) + "\n")
     proto.flush()
 
-    stdin = io.open(0, "r", encoding="ascii", newline="\n")
+    stdin = io.open(os.dup(0), "r", encoding="ascii", newline="\n")
+    # code under test must never read the protocol channel
+    os.dup2(os.open(os.devnull, os.O_RDONLY), 0)
+    sys.stdin = io.open(0, "r")
     for line in stdin:
         line = line.strip()
         if not line:
